@@ -23,6 +23,30 @@ CHECKS = {
         text="exhaustive over the grid universe (all zero patterns, thresholds at / between / below / above every "
              "probability, NaN and infinities); the specified result is compared entry by entry with the real truncate.",
         note="universe bounded by denominators <= 3 (quick) / 5 (thorough) and three infosets"),
+    "C19": dict(
+        category="model_checking", design_ref="4 C19",
+        technique="TLC enumerates pairs of grid profiles x exponents and the facts the property demands (MC_Dist.tla, "
+                  "checked on a reference distance); each pair is replayed into Strategies::distance both ways round",
+        text="exhaustive over the grid universe including a player without any multi-action infoset, disjoint supports, "
+             "identical profiles, p in {1/2,1,3/2,2,3,10} and the non-positive exponents that must panic.",
+        note="grid denominators <= 2 (quick) / 3 (thorough); exponents from a fixed set; p<1 range excess is a listed known finding"),
+    "C14": dict(
+        category="model_checking", design_ref="4 C14",
+        technique="TLC builds all entry lists up to a bound, checks operational import = declarative contract "
+                  "(Strategy.tla ImportMatchesDeclarative) on every state, and replays each list into from_named and "
+                  "from_named_eq comparing outcome, error kind, probabilities and the two paths",
+        text="exhaustive up to 2 entries x 2 pairs per player over existing / foreign / other-player infosets, legal / "
+             "illegal / repeated actions, invalid weights and four scale classes; both import paths on every list.",
+        note="alphabets and list lengths bounded; the error kind must be in the set of violated rules, the exact kind "
+             "predicted by the operational model is compared as model deviation only"),
+    "C13": dict(
+        category="model_checking", design_ref="4 C13",
+        technique="NamedView.tla (iterator protocol as a state machine) model-checked by TLC; traces of the real "
+                  "as_named() iterators (len before every next) validated against Trace_NamedView.tla",
+        text="the model settles what len() must count (TLC refutes the cell-counting design); every event of the real "
+             "iterators on imported, truncated and solved profiles must be a step of the specification, including the "
+             "item identity, probability tokens, sums in micro-units and the round trip.",
+        note="trace validation covers the runs recorded (seeded corpus); single-action infoset order left open"),
 }
 
 NOT_YET = "check not built yet (construction in progress, see DESIGN.md section 9)"
